@@ -208,13 +208,13 @@ Qed.
 Theorem exprloc_forward_ref_lemma dbg e be lpv uo pre o post en n :
   OD.uses_entry o = Some en -> OW.wf_op o = true ->
   match o with OW.WoCall _ | OW.WoParameterRef _ => False | _ => True end ->
-  OW.nth_N (OW.uo_entries uo) en = Some 0 ->
+  (OW.nth_N (OW.uo_entries uo) en = Some 0 \/ OW.nth_N (OW.uo_entries uo) en = None) ->
   OW.size_expr dbg (oenc e be) (Some uo) pre = Ok n ->
   gav_size dbg e be lpv uo (GExpr (pre ++ o :: post)) = Err WUnsupportedExpressionForwardReference.
 Proof.
   intros Hu Hwf Hk Hz Hp.
   assert (He : OW.entry_offset dbg (Some uo) en = Err WUnsupportedExpressionForwardReference).
-  { rewrite OD.entry_offset_cases, Hz. reflexivity. }
+  { rewrite OD.entry_offset_cases. destruct Hz as [-> | ->]; reflexivity. }
   destruct (OD.typed_ref_needs_offset dbg (oenc e be) (Some uo) true [] 0 o en _ Hu Hwf He) as [_ Hs].
   assert (Hs' : OW.size_op dbg (oenc e be) (Some uo) o = Err WUnsupportedExpressionForwardReference).
   { destruct o; try exact Hs; contradiction. }
@@ -991,21 +991,21 @@ Proof.
   apply chk_sub_ok. exact Hu.
 Qed.
 
-(* ... and for an entry of the arena that is not in the written tree (deleted, or reserved and never added): the
-   forward-reference error, never bytes *)
+(* ... and for an entry that is not in the written tree (deleted, orphaned, or reserved and never added — inside or
+   beyond the entries vector): the forward-reference error, never bytes *)
 Lemma entry_offset_orphan dbg e be lpv uoff g st0 st en :
   gcalc dbg e be lpv uoff g st0 = Ok st ->
   (forall j y, nth_error (cs_entries st0) j = Some y -> y = 0) ->
-  ~ In (N.to_nat en) (gdie_ids g) -> (N.to_nat en < length (cs_entries st0))%nat ->
+  ~ In (N.to_nat en) (gdie_ids g) ->
   OW.entry_offset dbg (Some (ouo uoff (cs_entries st))) en = Err WUnsupportedExpressionForwardReference.
 Proof.
-  intros HC Z Hn Hl.
+  intros HC Z Hn.
   set (cx := mkWcx e be 0 uoff [] [] None [] [] [] [] lpv).
   destruct (gcalc_frame dbg cx lpv g st0 st HC) as [_ [_ F]]. destruct (F _ Hn) as [E _].
   rewrite OD.entry_offset_cases. cbn [ouo OW.uo_entries OW.uo_unit]. rewrite nth_N_nth_error, E.
   destruct (nth_error (cs_entries st0) (N.to_nat en)) as [y|] eqn:Ey.
   - rewrite (Z _ _ Ey). reflexivity.
-  - apply nth_error_None in Ey. lia.
+  - reflexivity.
 Qed.
 
 (* ================================================================== (6) location lists: DWARF 2-4 list, tables *)
